@@ -55,6 +55,8 @@ type Proc struct {
 	// TmpOtherFS: the process's temporary directory ($TMPDIR) lies on another file system than its
 	// working directory (an environment fault: renames across the two fail with EXDEV)
 	TmpOtherFS bool `json:"tmp_other_fs,omitempty"`
+	// TZ: the process's time zone (environment fault: results must not depend on it)
+	TZ string `json:"tz,omitempty"`
 }
 
 type Record struct {
@@ -142,6 +144,9 @@ func (e *Env) RunProc(p *Proc, workDir string, timeout time.Duration, st *Stats,
 		gomaxprocs = 1
 	}
 	cmd.Env = append(os.Environ(), fmt.Sprintf("GOMAXPROCS=%d", gomaxprocs), "GOTRACEBACK=single")
+	if p.TZ != "" {
+		cmd.Env = append(cmd.Env, "TZ="+p.TZ)
+	}
 	if p.TmpOtherFS {
 		if d := otherFSTemp(workDir); d != "" {
 			defer os.RemoveAll(d)
@@ -162,9 +167,10 @@ func (e *Env) RunProc(p *Proc, workDir string, timeout time.Duration, st *Stats,
 		atomic.AddInt64(&st.ProcWallN, int64(res.Wall))
 	}
 	sawTrailer := false
+	oversized := false
 	if f, err := os.Open(resultPath); err == nil {
 		sc := bufio.NewScanner(f)
-		sc.Buffer(make([]byte, 1<<20), 256<<20)
+		sc.Buffer(make([]byte, 1<<20), 96<<20)
 		for sc.Scan() {
 			line := sc.Bytes()
 			if len(line) == 0 {
@@ -204,6 +210,11 @@ func (e *Env) RunProc(p *Proc, workDir string, timeout time.Duration, st *Stats,
 			}
 			res.Records = append(res.Records, rec)
 		}
+		if sc.Err() == bufio.ErrTooLong {
+			// one operation produced a result of more than 96 MiB for a workload of a few kilobytes:
+			// the process is treated as having ended inside that operation
+			oversized = true
+		}
 		f.Close()
 	}
 	if st != nil {
@@ -235,6 +246,8 @@ func (e *Env) RunProc(p *Proc, workDir string, timeout time.Duration, st *Stats,
 		} else {
 			return nil, Harness("cannot run simproc: %v", runErr)
 		}
+	case oversized:
+		res.Ended = "oversized-output"
 	default:
 		if !sawTrailer || len(res.Records) != len(p.Ops) {
 			return nil, Harness("simproc exited 0 with %d of %d records (trailer=%v)", len(res.Records), len(p.Ops), sawTrailer)
